@@ -51,6 +51,7 @@ json.dump({"Replace":a}, open(tmp+"/overlay.json","w"))
 PY
 fi
 go build -tags verif -overlay "$tmp/overlay.json" -o "$bin" "$cmd" 2>"$tmp/build.log" || { echo "BUILD FAILED"; tail -20 "$tmp/build.log"; exit 3; }
+[ -n "$VERIF_KEEP_BIN" ] && cp "$bin" "$VERIF_KEEP_BIN"
 mkdir -p "$tmp/root/evidence"; cp /verif/known_findings.jsonl "$tmp/root/" 2>/dev/null
 case "$(basename $cmd)" in vmc|vcoop|vevents|vmapiter|vdev-c41) args="check $id";; *) args="";; esac
 out=$(VERIF_ROOT="$tmp/root" VERIF_TIER="$tier" "$bin" $args 2>&1); rc=$?
